@@ -2,7 +2,13 @@
 RandomUDSServer into a real sqlite file (several runs / ECUs / property sets per file), then replayed through the real
 DBUDSServer (UDSServerTransport.handle_request).  The rows read back with sqlite3 and the request sequence go through
 the Lean model (Model/Replay.lean): its predicted replies must equal the real replay, and - whenever the model says the
-property's presupposition `Agree` holds - the real replay must equal the recorded replies."""
+property's presupposition `Agree` holds - the real replay must equal the recorded replies.
+
+Second part (`_scenarios`, harness/lib/c12scen.py): databases with 2-3 recordings of one ECU, replies the client refused,
+cancelled calls, an OEM-like ECU subclass, pauses, short scans sent several times and a synthetic table of state objects, replayed
+through the real server with its state and cursor read after every request and through the server-level model
+(Model/ReplayServe.lean, `serve`); a replay that differs from its recording is shrunk (re-recorded with a scripted ECU) before it
+is reported."""
 import asyncio
 import json
 import sqlite3
@@ -18,10 +24,19 @@ GENS = ["c12_server"]
 PROOF = "Gallia.Proofs.C12"
 DRIVER = "c12"
 ASSUMPTIONS = [
-    "sqlite (json_extract, ORDER BY id LIMIT 1) is represented by `minRow` over the rows read back with sqlite3",
-    "re-serialising a parsed recorded response returns the recorded bytes (property C02); requests are looked up by the bytes of the dynamically parsed request (C01)",
-    "the reply classes that drive state tracking are recognised by `classify`; validated against UDSResponse.parse_dynamic on every recorded reply",
-    "rows of the selected ECU recorded in *earlier* runs with the same name/properties are outside the theorem (they legitimately shadow later ones)",
+    "sqlite is represented by its contract: `json_extract` = `jget` (SQL NULL for an absent key or JSON null; integers, text, anything else by its minified JSON text; JSON booleans as 0 / 1), "
+    "`ORDER BY r.id LIMIT 1` = `minRow` / `minDbRow`, `INTEGER PRIMARY KEY AUTOINCREMENT` under the single writer task = consecutive ids in insertion order (`numberRows`); "
+    "float-valued state entries / properties and keys that are not plain identifiers are outside the model",
+    "the two codec facts the replay relies on are explicit hypotheses of `serve_is_replay` (`ReqLossless`: the parsed request carries the received bytes - C01; `RespLossless`: an accepted reply "
+    "re-serialises to the received bytes - C02) and are discharged in `codec_hypotheses_hold` from C01's / C02's own lemmas; that C01's / C02's decoders are the real `parse_dynamic` is C01's / C02's tie "
+    "(here every recorded reply is additionally compared with the real parser: class, typed or raw, re-serialised bytes)",
+    "the recording side is C11's recorder model (`Model/DbLog.lean`, imported read-only): `record_is_c11_rows` / `record_is_c11_calls` say its rows are `recordDb`; that the model is the real "
+    "`ECU._request` + `DBHandler` is C11's tie (here: the rows read back are the completed calls in completion order, the logged state is the model's client state)",
+    "the default rules of `UDSServer` are parameters of the server-level model (C13 models them); with `DBUDSServer.Behavior` - regenerated from the live class on every run - they are never consulted",
+    "several recordings the selector selects occupy id blocks that do not overlap (`RunsSorted`: one recording at a time per database file); `replay_with_earlier_runs` is for recordings of the same request sequence "
+    "that end in the default state - for other request sequences the exact statement is the step-level `replay_cursor_spec` plus `replay_earliest_recording`",
+    "`serve_is_replay` and the theorems transferred by it are for a server in a plain `ECUState` (what every `DBUDSServer` has) and requests without a pause beyond the inactivity limit; further server-side state keys "
+    "and pauses are in the model (`stateMatch`, `serveStep`), tied by the scenario databases and covered by `state_match_keywise` / `idle_reset_keeps_cursor` only; the clock is `time()` patched in the harness",
 ]
 
 
@@ -78,8 +93,9 @@ class TableECU:
 
     SESSIONS = (1, 2, 3, 0x40)
 
-    def __init__(self, boot):
+    def __init__(self, boot, chatty=False):
         self.boot = boot
+        self.chatty = chatty   # answers although the request asks to suppress the positive response (real ECUs do)
         self.session, self.sec, self.seed, self.silent, self.ctr = 1, None, None, 0, 0
 
     def __call__(self, p):
@@ -92,7 +108,7 @@ class TableECU:
             if sub not in self.SESSIONS:
                 return bytes([0x7F, 0x10, 0x12])
             self.session, self.sec, self.seed = sub, None, None
-            return None if p[1] & 0x80 else bytes([0x50, sub, 0x00, 0x32, 0x01, 0xF4])
+            return None if p[1] & 0x80 and not self.chatty else bytes([0x50, sub, 0x00, 0x32, 0x01, 0xF4])
         if sid == 0x11 and len(p) == 2:
             self.session, self.sec, self.seed = 1, None, None
             self.silent = self.boot
@@ -128,7 +144,7 @@ class TableECU:
         if sid == 0x31 and len(p) >= 4:
             return bytes([0x71, p[1] & 0x7F, p[2], p[3], self.session])
         if sid == 0x3E and len(p) == 2:
-            return None if p[1] & 0x80 else bytes([0x7E, 0x00])
+            return None if p[1] & 0x80 and not self.chatty else bytes([0x7E, 0x00])
         return bytes([0x7F, sid, 0x11])
 
 
@@ -351,19 +367,21 @@ class ScriptECU:
         return r
 
 
-def _rerecord_and_replay(ctx, hist):
+def _rerecord_and_replay(ctx, hist, n_pass=1, oem=False):
     """record `hist` ([(request, reply|None)]) with the real recorder against a scripted ECU into a fresh database, replay the
-    requests through the real DBUDSServer; returns (recorded tokens, replayed tokens, model says the presupposition holds)"""
+    requests (`n_pass` times in a row) through the real DBUDSServer; returns (recorded tokens, replayed tokens, the model says the
+    presupposition holds - and, for several passes, that the recording ends in the default state)"""
     from lib import c12scen as sc
 
     with tempfile.TemporaryDirectory(prefix="verif-c12-") as td:
         dbp = Path(td) / "case.sqlite"
-        rec, _ = vrun(sc.record_run(dbp, "fake://case", ScriptECU(hist), [("pdu", p) for p, _ in hist]))
+        rec, _ = vrun(sc.record_run(dbp, "fake://case", ScriptECU(hist), [("pdu", p) for p, _ in hist], oem=oem))
         sc.name_runs(dbp, [(rec["run"], "fake://case", "ECU0", {})])
-        real, _ = vrun(sc.replay_trace(dbp, "ECU0", None, [(0, p) for p, _ in hist]))
-    la = ctx.lean(["agree " + ";".join(f"{hx(p) if p else '-'}:{hx(r) if r is not None else 'N'}" for p, r in hist)])[0] if hist else "1"
-    recorded = ["N" if r is None else hx(r) for _, r, _ in rec["calls"]]
-    return recorded, [t.split("~")[0] for t in real], la.split(" ")[0] == "1"
+        real, _ = vrun(sc.replay_trace(dbp, "ECU0", None, [(0, p) for p, _ in hist] * n_pass))
+    la = ctx.lean(["agree " + ";".join(f"{hx(p) if p else '-'}:{hx(r) if r is not None else 'N'}" for p, r in hist)])[0] if hist else "1 final=1/n "
+    recorded = ["N" if r is None else hx(r) for _, r, _ in rec["calls"]] * n_pass
+    ok = la.split(" ")[0] == "1" and (n_pass == 1 or " final=1/n " in la)
+    return recorded, [t.split("~")[0] for t in real], ok
 
 
 def _first_diff(a, b):
@@ -374,50 +392,56 @@ def _what(tok):
     return "exception" if tok == "EXC" else ("silence" if tok == "N" else "other-bytes")
 
 
-def _shrink_history(ctx, hist):
+def _shrink_history(ctx, hist, n_pass=1, oem=False):
     """smallest history (prefix, then single exchanges dropped front to back) that the real recorder + the real DBUDSServer still replay
-    differently from what was recorded although client and server agree on the state along it; None when the failure does not
-    reproduce from the history alone"""
+    differently from what was recorded although client and server agree on the state along it: (history, what, recorded, replayed);
+    None when the failure does not reproduce from the history alone"""
     def fails(h):
-        recorded, real, agree = _rerecord_and_replay(ctx, h)
+        recorded, real, agree = _rerecord_and_replay(ctx, h, n_pass, oem)
         i = _first_diff(recorded, real)
-        return (i, _what(real[i])) if agree and i is not None else None
+        return (i, _what(real[i]), recorded, real) if agree and i is not None else None
 
     f = fails(hist)
     if f is None:
         return None
-    hist = hist[: f[0] + 1]
+    if n_pass == 1:
+        hist = hist[: f[0] + 1]
+        f = fails(hist) or f
     what = f[1]
     k = 0
     budget = 60
-    while k < len(hist) - 1 and budget > 0:
+    while k < len(hist) and len(hist) > 1 and budget > 0:
         budget -= 1
         cand = hist[:k] + hist[k + 1:]
         g = fails(cand)
-        if g is not None and g[1] == what and g[0] == len(cand) - 1:
-            hist = cand
+        if g is not None and g[1] == what and (n_pass > 1 or g[0] == len(cand) - 1):
+            hist, f = cand, g
         else:
             k += 1
-    return hist, what
+    return hist, what, f[2][: f[0] + 1], f[3][: f[0] + 1]
 
 
-def _report_spec(ctx, hist, where, scenario, runs_in_db, real_tokens, recorded_tokens, unparsable):
+def _report_spec(ctx, hist, where, scenario, runs_in_db, real_tokens, recorded_tokens, unparsable, n_pass=1):
     """the replay differs from the recording although the states agree: shrink, then report with a key that names the defect"""
     i = _first_diff(recorded_tokens, real_tokens)
     what = _what(real_tokens[i])
-    shrunk = _shrink_history(ctx, hist)
+    oem = scenario == "oem-state"
+    shrunk = _shrink_history(ctx, hist, n_pass, oem)
     if shrunk is not None:
-        small, what_s = shrunk
-        case = {"scenario": scenario, "shrunk": True, "history": [[hx(p), None if r is None else hx(r)] for p, r in small], "index": len(small) - 1}
-        rec_i = small[-1][1]
-        what = what_s
+        small, what, recorded_tokens, real_tokens = shrunk
+        i = len(real_tokens) - 1
+        case = {"scenario": scenario, "shrunk": True, "history": [[hx(p), None if r is None else hx(r)] for p, r in small], "passes": n_pass, "index": i}
+        if oem:
+            case["recorder"] = "ECU subclass whose state object has further keys (harness/lib/c12scen.py: oem_classes)"
+        rec_i = small[i % len(small)][1]
     else:
         case = {"scenario": scenario, "shrunk": False, "runs_in_db": runs_in_db, "where": where,
-                "history": [[hx(p), None if r is None else hx(r)] for p, r in hist], "index": i}
-        rec_i = hist[i][1]
+                "history": [[hx(p), None if r is None else hx(r)] for p, r in hist], "passes": n_pass, "index": i}
+        rec_i = hist[i % len(hist)][1]
     bad = rec_i is not None and hx(rec_i) in unparsable
     key = f"replay:unparsable-recorded-reply:{what}" if bad else f"replay:differs-from-recording:{what}"
-    ctx.disagree(key, f"replayed reply {case['index']} is {real_tokens[i] if shrunk is None else what} but {'silence' if rec_i is None else hx(rec_i)} was recorded"
+    got = {"EXC": "an exception out of handle_request", "N": "silence"}.get(real_tokens[i], real_tokens[i])
+    ctx.disagree(key, f"replayed reply {i}{' (pass ' + str(i // len(case['history']) + 1) + ')' if n_pass > 1 else ''} is {got} but {'silence' if rec_i is None else hx(rec_i)} was recorded"
                  + (" (a reply the client refused as malformed; the recorder kept its bytes)" if bad else "") + " - client and server agree on the state along the history",
                  case, impl=real_tokens[: i + 1], model=recorded_tokens[: i + 1], spec_violated=True, site="DBUDSServer.respond_after_default")
 
@@ -428,19 +452,24 @@ def _scenarios(ctx, td):
     from lib import c12scen as sc
 
     rng = ctx.rng
-    n_sc = ctx.pick(35, 280)
-    kinds = ["identical-runs", "same-requests", "other-requests", "refused-replies", "cancelled-calls", "oem-state", "pauses"]
+    n_sc = ctx.pick(105, 560)
+    kinds = ["identical-runs", "same-requests", "other-requests", "refused-replies", "cancelled-calls", "oem-state", "pauses", "restarted-scan"]
     jobs = []   # one per replay: dict(scenario, line, real, spec=(hist, recorded tokens)|None, runs_in_db, where)
     replies_seen = set()
 
     def table_plan(n, boot, good_keys=True):
         plan = _gen_table_history(rng, TableECU(boot), n)
+        if chatty[0]:  # ask to suppress the positive response now and then: this ECU answers anyway
+            plan = [("pdu", bytes([it[1][0], it[1][1] | 0x80])) if it[0] == "pdu" and len(it[1]) == 2 and it[1][0] in (0x10, 0x3E) and rng.random() < 0.4 else it
+                    for it in plan]
         return plan if good_keys else [(("key", it[1], False) if it[0] == "key" else it) for it in plan]
 
     def table_ecu(boot, ctr0=0):
-        e = TableECU(boot)
+        e = TableECU(boot, chatty=chatty[0])
         e.ctr = ctr0
         return e
+
+    chatty = [False]
 
     # the synthetic table of state objects, every server-side key set
     dbp = Path(td) / "state-table.sqlite"
@@ -460,6 +489,9 @@ def _scenarios(ctx, td):
         dbp = Path(td) / f"sc{si}.sqlite"
         boot = rng.choice([0, 1, 2])
         n = rng.randint(6, ctx.pick(18, 30))
+        chatty[0] = rng.random() < 0.3
+        if chatty[0]:
+            ctx.kind("scenario-ecu:answers-suppressed-requests")
         named, recs = [], []
 
         def rec(url, name, ecufn, steps, oem=False, vin="VIN0"):
@@ -483,7 +515,7 @@ def _scenarios(ctx, td):
             reqs = [(0, p) for p, _, _ in mine[0]["calls"]]
             replays.append((mine[0], reqs, None, "first pass"))
             passes = rng.choice([2, k, k + 1])
-            replays.append((None, reqs * passes, None, f"{passes} passes over {k} recordings"))
+            replays.append(((mine[0], passes) if scenario == "identical-runs" else None, reqs * passes, None, f"{passes} passes over {k} recordings"))
         elif scenario == "other-requests":
             k = rng.choice([2, 3])
             for j in range(k):
@@ -498,6 +530,7 @@ def _scenarios(ctx, td):
             ecu = sc.MutatingECU(table_ecu(boot), rng, rng.choice([0.2, 0.4, 0.7]))
             r = rec("fake://ecu0", "ECU0", ecu, table_plan(n, boot))
             replays.append((r, [(0, p) for p, _, _ in r["calls"]], None, f"{ecu.mutated} refused replies"))
+            replays.append(((r, 2), [(0, p) for p, _, _ in r["calls"]] * 2, None, f"{ecu.mutated} refused replies, two passes"))
         elif scenario == "cancelled-calls":
             steps = []
             for it in table_plan(n, boot):
@@ -525,6 +558,15 @@ def _scenarios(ctx, td):
             replays.append((r, reqs, None, "plain server"))
             xs = rng.choice([{"variant": None}, {"variant": "R02"}, {"boots": 0}, {"boots": 1, "variant": None}, {"written": None}])
             replays.append((None, reqs, xs, f"server state with further keys {xs}"))
+        elif scenario == "restarted-scan":  # a short scan that ends where it began, sent again and again: the wrap-around query
+            bystander()
+            pool = [b"\x3e\x00", b"\x22\x0c\x0c", b"\x22\x10\x02", b"\x10\x01", b"\x22\xf1\x86", b"\x19\x02\xff", b"\x11\x01", b"\x10\x03"]
+            plan = [("pdu", rng.choice(pool)) for _ in range(rng.choice([1, 1, 2, 3, 4]))]
+            if rng.random() < 0.5:
+                plan.append(("pdu", b"\x10\x01"))
+            r = rec("fake://ecu0", "ECU0", table_ecu(0), plan)
+            passes = rng.choice([2, 3])
+            replays.append(((r, passes), [(0, p) for p, _, _ in r["calls"]] * passes, None, f"{passes} passes over a recording of {len(r['calls'])} exchanges"))
         else:  # pauses
             bystander()
             r = rec("fake://ecu0", "ECU0", table_ecu(boot), table_plan(n, boot))
@@ -546,8 +588,9 @@ def _scenarios(ctx, td):
             real, _ = vrun(sc.replay_trace(dbp, sel_name, sel_props, reqs, xs))
             spec = None
             if spec_run is not None:
+                spec_run, n_pass = spec_run if isinstance(spec_run, tuple) else (spec_run, 1)
                 hist = [(p, a) for p, a, _ in spec_run["calls"]]
-                spec = (hist, ["N" if a is None else hx(a) for _, a in hist])
+                spec = (hist, ["N" if a is None else hx(a) for _, a in hist], n_pass)
             jobs.append({"scenario": scenario, "line": sc.serve_line(sel_name, sel_props, xs, runs_txt, rows_txt, reqs), "real": real, "spec": spec,
                          "runs_in_db": len(recs), "where": where})
             ctx.ev()
@@ -586,11 +629,12 @@ def _judge_scenarios(ctx, jobs, replies_seen):
         real = j["real"]
         model = mo.split(",") if mo and mo != "bad-op" else []
         real_r = [t.split("~")[0] for t in real]
-        if j["spec"] is not None and la.split(" ")[0] == "1":
-            hist, recorded = j["spec"]
+        if j["spec"] is not None and la.split(" ")[0] == "1" and (j["spec"][2] == 1 or " final=1/n " in la):
+            # the presupposition holds; further passes count when the recording ends in the default state (a scan that is started again)
+            hist, recorded, n_pass = j["spec"]
             n_spec += 1
-            if real_r[: len(recorded)] != recorded:
-                _report_spec(ctx, hist, j["where"], j["scenario"], j["runs_in_db"], real_r, recorded, unparsable)
+            if real_r[: len(recorded) * n_pass] != recorded * n_pass:
+                _report_spec(ctx, hist, j["where"], j["scenario"], j["runs_in_db"], real_r, recorded * n_pass, unparsable, n_pass)
                 continue
         if mo == "bad-op" or real != model:
             i = _first_diff(real, model)
@@ -615,7 +659,9 @@ def run(ctx):
                 "8..40 exchanges over session changes, seed/key pairs, resets, reads/writes/routines, suppressed and repeated requests "
                 "against RandomUDSServer seeds and against a deterministic table ECU with state-dependent data (unlock then re-enter the active session, "
                 "boot polling where the same request is first unanswered and later answered); the state logged per row is compared with the "
-                "model's client state-tracking rule; distinct = distinct (rows, request sequence); non-trivial = history contains a state change")
+                "model's client state-tracking rule; distinct = distinct (rows, request sequence); non-trivial = history contains a state change; "
+                "scenario databases (harness/lib/c12scen.py): one case = (database with 2-3 recordings of one ECU / refused replies / cancelled calls / OEM state keys / pauses / a short scan sent several times, "
+                "selector, request sequence, server-side state keys), compared reply~state@cursor per request")
     n_db = ctx.pick(70, 400)
     lines_replay, lines_agree, lines_db, meta = [], [], [], []
     with tempfile.TemporaryDirectory(prefix="verif-c12-") as td:
@@ -714,10 +760,7 @@ def run(ctx):
         if agree and single:
             n_agree += 1
             if real_s[: len(recorded_s)] != recorded_s:
-                i = next(k for k in range(len(recorded_s)) if real_s[k] != recorded_s[k])
-                what = "exception" if real_s[i] == "EXC" else ("silence" if real_s[i] == "N" else "other-bytes")
-                ctx.disagree(f"replay:differs-from-recording:{what}", f"replayed reply {i} is {real_s[i]} but {recorded_s[i]} was recorded (states agree along the history)",
-                             {**case, "index": i}, impl=real_s, model=recorded_s, spec_violated=True, site="DBUDSServer.respond_after_default")
+                _report_spec(ctx, hist, f"selector {m['mode']}", "one-recording-per-ecu", m["n_runs"], real_s, recorded_s, set())
                 continue
         elif single:
             n_disagree_presup += 1
@@ -735,16 +778,44 @@ def run(ctx):
                     "replayed": ["EXC" if isinstance(r, tuple) else (None if r is None else hx(r)) for r in m["real"]][:12]})
 
 
+def replay(ctx, payload):
+    """re-run one recorded failing input: record the history with the real recorder against a scripted ECU, replay it (`passes` times) through
+    the real DBUDSServer, print what was recorded, what is replayed and what the model says; 1 when the replay differs from the recording"""
+    setup_repo_import()
+    import gallia.command  # noqa: F401
+    patch_aiosqlite()
+    case = payload.get("case") or {}
+    if "history" not in case:
+        print(json.dumps(payload, indent=1)[:6000])
+        print("this replay file names a correspondence that no longer checks; it carries no single history to re-run")
+        return 0
+    hist = [(bytes.fromhex(p), None if r is None else bytes.fromhex(r)) for p, r in case["history"]]
+    n_pass = int(case.get("passes", 1))
+    recorded, real, ok = _rerecord_and_replay(ctx, hist, n_pass, oem="recorder" in case)
+    print("requests :", " ".join(hx(p) for p, _ in hist), f"(x{n_pass})" if n_pass > 1 else "")
+    print("recorded :", " ".join(recorded))
+    print("replayed :", " ".join(real))
+    print("presupposition (client and server agree on the state along the history" + (", recording ends in the default state" if n_pass > 1 else "") + "):", ok)
+    differs = real[: len(recorded)] != recorded
+    print("replay differs from the recording" if differs else "replay equals the recording")
+    return int(differs and ok)
+
+
 MANIFEST = {
-    "level_text": ("Lean 4 theorem replay_faithful: for every recorded history on which client-side and server-side state tracking agree "
-                   "(the property's presupposition, a decidable predicate), replaying the requests against the recorded rows - mixed with "
-                   "arbitrary rows of other ECUs / property sets and with later rows of the same ECU - returns exactly the recorded replies and "
-                   "silence where none was recorded; plus a syntactic sufficient condition for the presupposition and the concrete history on "
-                   "which it fails. The replay model (row selection id > last then wrap, JSON state match, reset on NULL reply) is tied to the code "
-                   "by recording with the real ECU + DBHandler against RandomUDSServer and a state-aware table ECU into real sqlite files (logged client state per row = model's clientStates) and replaying through the real "
-                   "DBUDSServer: model prediction = real replay on every history, real replay = recording whenever the presupposition holds."),
-    "level_note": ("Trusted: Lean kernel, sqlite/aiosqlite, the harness. C01/C02 round trips are assumed for the stored request/response bytes. "
-                   "Earlier runs of the *same* ECU name/properties shadow later ones by design and are outside the theorem."),
-    "technique": "Lean 4 proof (induction over the history with a row-selection invariant) + record/replay correspondence on real sqlite databases",
+    "level_text": ("Lean 4 theorems over an executable model of the whole replay path. Row level (`replayStep`): `replay_faithful` / `replay_faithful_db` - a recorded history on which client- and "
+                   "server-side state tracking agree (the property's presupposition, decidable) is replayed exactly, whatever other ECUs / property sets / later rows the database holds; `replay_cursor_spec` - the "
+                   "cursor rule in general (smallest matching id above the cursor, else smallest matching id); `replay_earliest_recording`, `replay_with_earlier_runs`, `replay_faithful_repeated_runs` - several "
+                   "recordings of the same ECU: the earliest is served first, m passes go round robin through k recordings, identical recordings replay exactly; `replay_again`; `replay_skips_unsent_calls` - rows of calls "
+                   "that were never transmitted. Recording side: `record_is_c11_rows` / `record_is_c11_calls` - the rows C11's recorder model leaves under every schedule / fault / cancellation are `recordDb`. "
+                   "Server level (`serveStep` = handle_request -> respond -> respond_after_default -> update_state over JSON state objects, with request and reply parsed and re-serialised): `serve_is_replay` - it is the "
+                   "row-level model, given C01's and C02's round trips as hypotheses (discharged in `codec_hypotheses_hold`); `update_state_class_is_classify` - the state-tracking classes are read off C02's decoder; "
+                   "`state_match_keywise`; `unparsable_recorded_reply`; `served_bytes_are_recorded`; `server_tables_agree` - DBUDSServer.Behavior, the rule chain, the query tails, the cursor start, the inactivity limit and "
+                   "ECUState's keys regenerated from the working tree. Tie: recording with the real ECU (+ an OEM-like subclass) + DBHandler against RandomUDSServer, a state-aware table ECU and reply-mutating / "
+                   "suppress-ignoring variants into real sqlite files - 1..3 ECUs per file, 2-3 recordings of one ECU, refused replies, calls cancelled in flight or while waiting for the mutex - and replaying through the real "
+                   "DBUDSServer / UDSServerTransport.handle_request with state and cursor read after every request: model = code on every replay, code = recording whenever the presupposition holds (also on further "
+                   "passes of a recording that ends in the default state)."),
+    "level_note": ("Trusted: Lean kernel, sqlite/aiosqlite, the harness. C01 / C02 round trips enter as explicit hypotheses discharged from those properties' lemmas; the recorder is C11's model. The inactivity reset and the wrap-around are "
+                   "modelled and tied, but a change there that no history within the property's statement can show is reported without a failing input."),
+    "technique": "Lean 4 proof (induction over histories / passes with a row-selection invariant; refinement of the server-level model to the row-level model) + regenerated tables + record/replay correspondence on real sqlite databases",
     "design_ref": "DESIGN.md section 7, C12",
 }
